@@ -630,6 +630,7 @@ type Outcome struct {
 	Err              string   `json:"err,omitempty"`
 	Dev              *DevLog  `json:"dev,omitempty"`
 	Fallbacks        [][2]int `json:"fallbacks,omitempty"`
+	Remainder        [][2]int `json:"remainder,omitempty"`
 	Pts              int64    `json:"pts,omitempty"`
 	Intact           bool     `json:"intact"`
 	Fault            bool     `json:"fault,omitempty"`
@@ -719,8 +720,25 @@ func takeFallbacks() [][2]int {
 	return f
 }
 
+var remLog [zzsimrt.MaxClients][][2]int
+
+//go:norace
+func noteRemainder(off, n int) {
+	c := zzsimrt.Cur()
+	remLog[c] = append(remLog[c], [2]int{off, n})
+}
+
+//go:norace
+func takeRemainders() [][2]int {
+	c := zzsimrt.Cur()
+	f := remLog[c]
+	remLog[c] = nil
+	return f
+}
+
 func installHooks() {
 	ed25519.VerifBatchFallback = noteFallback
+	ed25519.VerifBatchRemainder = noteRemainder
 }
 
 // ---------------------------------------------------------------- execution
@@ -746,6 +764,7 @@ func execOp(p *Prepared) (out *Outcome) {
 		}
 	}
 	takeFallbacks()
+	takeRemainders()
 	zzsimrt.BeginOp(budgetFor(op))
 	func() {
 		defer func() {
@@ -779,6 +798,7 @@ func execOp(p *Prepared) (out *Outcome) {
 	}
 	out.NilRd, out.Fn = op.NilRd, op.Fn
 	out.Fallbacks = takeFallbacks()
+	out.Remainder = takeRemainders()
 	if dev != nil {
 		l := dev.log
 		out.Dev = &l
